@@ -129,12 +129,12 @@ type CFile struct {
 	NoPanic  []string
 }
 
-var clauseRe = regexp.MustCompile(`^(requires|ensures|invariant|decreases|assert|assume|panics)(\[[A-Za-z0-9,]+\])?\s+(.*)$`)
+var clauseRe = regexp.MustCompile(`^(requires|ensures|defines|invariant|decreases|assert|assume|panics)(\[[A-Za-z0-9,]+\])?\s+(.*)$`)
 var specRe = regexp.MustCompile(`^spec\s+([A-Za-z_][A-Za-z0-9_]*)\s*\(([^)]*)\)\s*([^=]+?)\s*(=\s*(.*))?$`)
 var lemmaRe = regexp.MustCompile(`^lemma(\[[A-Za-z0-9,]+\])?\s+([A-Za-z_][A-Za-z0-9_]*)\s*\(([^)]*)\)\s*(induct\s+([A-Za-z_][A-Za-z0-9_]*))?\s*$`)
 
 var topKeywords = []string{"typeinv ", "assume-typeinv ", "spec ", "axiom ", "lemma ", "lemma[", "func ", "extern ", "funcfield ", "nopanic "}
-var subKeywords = []string{"requires", "ensures", "invariant", "decreases", "assert", "assume", "panics", "modifies", "pure", "loop ", "callsite ", "noswallow", "ghost ", "abstracts ", "maypanic", "before:", "after:", "uses ", "ignore ", "pattern "}
+var subKeywords = []string{"requires", "ensures", "defines", "invariant", "decreases", "assert", "assume", "panics", "modifies", "pure", "loop ", "callsite ", "noswallow", "ghost ", "abstracts ", "maypanic", "before:", "after:", "uses ", "ignore ", "pattern "}
 
 func startsWithAny(s string, ks []string) bool {
 	for _, k := range ks {
@@ -453,7 +453,7 @@ func ParseContractFile(path string) (*CFile, error) {
 				curCS.Assume = append(curCS.Assume, c)
 			case c.Kind == "requires":
 				curF.Requires = append(curF.Requires, c)
-			case c.Kind == "ensures" || c.Kind == "panics":
+			case c.Kind == "ensures" || c.Kind == "panics" || c.Kind == "defines":
 				curF.Ensures = append(curF.Ensures, c)
 			}
 		}
